@@ -114,7 +114,11 @@ impl Position {
     }
 
     pub(crate) fn contains_region(&self, start_offset: usize, end_offset: usize) -> bool {
-        debug_assert!(start_offset <= end_offset);
+        // Callers pass regions that come from outside, e.g. an LSP
+        // client's selection. A reversed region is inside nothing.
+        if start_offset > end_offset {
+            return false;
+        }
 
         // If we have a empty range, we want to look for an exclusive
         // range, to avoid AST search logic finding expressions which
